@@ -73,7 +73,18 @@ def gen_case(r, big=False):
         W['netpols'].append({'ns': wl['ns'], 'name': 'hole', 'podSelector': {}, 'policyTypes': ['Ingress' if d == 'ingress' else 'Egress'],
                              d: [{key: [{'namespaceSelector': {}}], 'ports': ports},
                                  {key: [{'podSelector': {'matchLabels': {'app': 'x'}}}], 'ports': [{'port': r.choice(gen.NAMES)}] + (ports[:1] if r.random() < 0.5 else [])}]})
-    elif x < 0.88:
+    elif x < 0.85:
+        # a namespace named by its name label AND restricted by an expression (must not be printed as the bare namespace)
+        d = r.choice(['ingress', 'egress'])
+        key = 'from' if d == 'ingress' else 'to'
+        nsx = r.choice([wl['ns'], 'nsq'])
+        nsel = {'matchLabels': {gen.NSKEY: nsx}, 'matchExpressions': [r.choice([{'key': 'env', 'operator': 'Exists'}, {'key': 'tier', 'operator': 'NotIn', 'values': ['a']}])]}
+        peers = [{'namespaceSelector': nsel, 'podSelector': r.choice([{}, {'matchLabels': {'app': 'x'}}])}]
+        if r.random() < 0.5:
+            peers.append({'namespaceSelector': {'matchLabels': {gen.NSKEY: nsx}}, 'podSelector': copy.deepcopy(peers[0]['podSelector'])})
+        W['netpols'].append({'ns': wl['ns'], 'name': 'nsexpr', 'podSelector': {}, 'policyTypes': ['Ingress' if d == 'ingress' else 'Egress'],
+                             d: [{key: peers, 'ports': [{'port': r.choice(gen.PORTS)}]}]})
+    elif x < 0.9:
         # selectors that differ only in where a character sits
         W['netpols'].append({'ns': wl['ns'], 'name': 'keys', 'podSelector': {}, 'policyTypes': ['Ingress'],
                              'ingress': [{'from': [{'podSelector': {'matchLabels': {'app': 'ab', 'c': 'd'}}}], 'ports': [{'port': 80}]},
